@@ -4,7 +4,8 @@ set -u
 ID=$1; N=$2; NAME=$3; PROPS=$4
 WT=/tmp/seed/$ID
 cd $WT || exit 9
-git checkout -q -- . ; git apply out/mut$N.diff || { echo "APPLY FAILED"; exit 9; }
+git checkout -q -- . ; git apply out/mut$N.diff 2>/dev/null || git apply --3way out/mut$N.diff >/dev/null 2>&1 || { echo "[$NAME] APPLY FAILED (does not apply to the current HEAD)"; git reset -q --hard; exit 9; }
+git diff > /tmp/seed/$NAME.rebased.diff
 /venv/bin/python out/demo$N.py > /tmp/seed/$NAME.demo_mut.log 2>&1; D1=$?
 if [ -z "${SKIP_TESTS:-}" ]; then
 /venv/bin/python -m pytest -q -p no:cacheprovider --timeout=900 > /tmp/seed/$NAME.tests.log 2>&1; T=$?
@@ -14,9 +15,9 @@ git checkout -q -- . ; rm -f tests/data/test_multiple.7z
 /venv/bin/python out/demo$N.py > /tmp/seed/$NAME.demo_clean.log 2>&1; D0=$?
 echo "[$NAME] demo with mutation: exit $D1 ; tests: rc=$T ($TS) ; demo clean: exit $D0"
 mkdir -p /verif/seeded/$NAME
-cp out/mut$N.diff /verif/seeded/$NAME/patch.diff; cp out/demo$N.py /verif/seeded/$NAME/demo.py
+cp /tmp/seed/$NAME.rebased.diff /verif/seeded/$NAME/patch.diff; cp out/demo$N.py /verif/seeded/$NAME/demo.py
 # run the checks against the mutated worktree (same as applying the patch to /repo, without disturbing it)
-cd $WT && git apply out/mut$N.diff || { echo "APPLY FAILED"; exit 9; }
+cd $WT && git apply /tmp/seed/$NAME.rebased.diff || { echo "[$NAME] APPLY FAILED"; exit 9; }
 cd /verif
 for P in $PROPS; do
   VERIF_EVIDENCE_DIR=/tmp/seed/evidence/$NAME VERIF_REPLAY_DIR=/tmp/seed/replays/$NAME VERIF_REPO=$WT PYTHONPATH=$WT ./vcheck $P > /tmp/seed/$NAME.$P.log 2>&1; RC=$?
